@@ -9,6 +9,9 @@ from modelx.core.errors import DeletedObjectError     # noqa: E402
 from modelx.core.base import Interface                # noqa: E402
 
 
+HARNESS_MAXDEPTH = 1500
+
+
 class Inconclusive(Exception):
     """the harness could not observe what it needed; never a verdict"""
 
@@ -42,6 +45,7 @@ def reset_session():
         mx.core.mxsys.models.clear()
     mx.set_recalc(False)
     mx.use_formula_error(True)
+    mx.set_recursion(HARNESS_MAXDEPTH)     # a runaway chain ends quickly; C05 sets its own limits
     ex = mx.core.mxsys.executor
     if executor_idle():
         # a previous case left the executor dirty: repair so that cases stay independent
